@@ -35,6 +35,20 @@ type channel interface {
 	load(channel) error
 }
 
+// edgeFailure is parked in the channel of an all-predecessor node in place of a value that did not pass
+// the handlers of its edge; the channel reports it when (and only when) it hands out the node's input.
+type edgeFailure struct {
+	Msg string
+	err error
+}
+
+func (e *edgeFailure) failure() error {
+	if e.err != nil {
+		return fmt.Errorf("edge handler fail: %w", e.err)
+	}
+	return fmt.Errorf("edge handler fail: %s", e.Msg)
+}
+
 type edgeHandlerManager struct {
 	h map[string]map[string][]handlerPair
 }
@@ -139,6 +153,14 @@ func (c *channelManager) updateValues(_ context.Context, values map[string] /*to
 		if !ok {
 			return fmt.Errorf("target channel doesn't existed: %s", target)
 		}
+		dagTarget, isDAG := toChannel.(*dagChannel)
+		if isDAG && dagTarget.Skipped {
+			// the target has been skipped (no branch selected it): it never reads what is written to it
+			for _, value := range fromMap {
+				closeIfStream(value)
+			}
+			continue
+		}
 		dps, ok := c.dataPredecessors[target]
 		if !ok {
 			dps = map[string]struct{}{}
@@ -150,7 +172,14 @@ func (c *channelManager) updateValues(_ context.Context, values map[string] /*to
 			if _, ok = dps[from]; ok {
 				nFromMap[from], err = c.edgeHandlerManager.handle(from, target, value, c.isStream)
 				if err != nil {
-					return fmt.Errorf("edge handler fail: %w", err)
+					if !isDAG {
+						return fmt.Errorf("edge handler fail: %w", err)
+					}
+					// In all-predecessor mode a value is written to every data successor, whether or not a
+					// branch will select it. A value that does not pass the checks of its edge (run-time type
+					// check, field mapping) fails the run only if the target gets to read it, as in stream
+					// form, where these checks run when the target reads the stream.
+					nFromMap[from] = &edgeFailure{Msg: err.Error(), err: err}
 				}
 			} else {
 				if sr, okk := value.(streamReader); okk {
